@@ -4,7 +4,7 @@
    it is now (flip test on the Cartesian parts), [old_rule = true] the original flip rule.
    Only statements, each closed by [exact <lemma>] and followed by Print Assumptions. *)
 From Coq Require Import Reals ZArith List Bool Arith Lra Lia.
-From Romea Require Import Num NumR NormalsModel NormalsProofs SrcEigen SrcNormalsLib SrcTieC09 NormalsRotation.
+From Romea Require Import Num NumR NormalsModel NormalsProofs SrcEigen SrcNormalsLib SrcTieC09 NormalsRotationCore NormalsRotation.
 From Romea.gen Require Import SrcNormals.
 Import ListNotations.
 Local Open Scope R_scope.
